@@ -167,7 +167,7 @@ func init() {
 				}
 			}
 			// every present tag made invalid by a forbidden character in its first element / wrong marker
-			for name := range base.Tags {
+			for _, name := range sortedKeys(base.Tags) {
 				tt := tagByName[name]
 				for _, op := range []*wire.ValidateOpts{nil, {SkipMandatoryIMAD: true, AllowMissingSenderSupplied: true}} {
 					if len(tt.Elems) > 0 {
